@@ -280,16 +280,26 @@ pub fn run_check(prop: &Prop, thorough: bool, verif_seed: u64, jobs: usize, scal
         // watchdog
         let wd = &wd;
         let done = &done;
-        s.spawn(move || loop {
+        s.spawn(move || {
+            // The watchdog counts its own wake-ups, not wall-clock time: when the whole machine is
+            // paused (a VM snapshot) or starved, the watchdog is paused or starved with the workers
+            // and does not mistake the gap for a hang. A run is a hang when the same worker has
+            // been in the same run for 1600 consecutive ticks of >= 25 ms each (>= 40 s of
+            // watchdog-perceived time; a simulated run takes microseconds).
+            let mut seen: Vec<(u64, u32)> = vec![(0, 0); wd.len()];
+            loop {
             if done.load(Ordering::Relaxed) == jobs as u64 {
                 break;
             }
             std::thread::sleep(std::time::Duration::from_millis(25));
-            let now = t0.elapsed().as_millis() as u64;
-            for w in wd.iter() {
+            for (wi, w) in wd.iter().enumerate() {
                 let idx = w.0.load(Ordering::Relaxed);
-                let st = w.1.load(Ordering::Relaxed);
-                if idx != 0 && now.saturating_sub(st) > 30_000 {
+                if idx != 0 && seen[wi].0 == idx {
+                    seen[wi].1 += 1;
+                } else {
+                    seen[wi] = (idx, 0);
+                }
+                if idx != 0 && seen[wi].1 > 1600 {
                     let index = idx - 1;
                     let path = format!("{}/replays/{}-hang-{}-{}.json", out_dir(), prop.id, verif_seed, index);
                     let _ = std::fs::create_dir_all(format!("{}/replays", out_dir()));
@@ -297,7 +307,7 @@ pub fn run_check(prop: &Prop, thorough: bool, verif_seed: u64, jobs: usize, scal
                         ("property", J::s(prop.id)),
                         ("code", J::s(format!("{}.hang", prop.id))),
                         ("key", J::s("")),
-                        ("message", J::s("a single simulated run did not finish within 30 s wall-clock")),
+                        ("message", J::s("a single simulated run did not finish within 1600 watchdog ticks (>= 40 s)")),
                         ("verif_seed", J::u(verif_seed)),
                         ("run_index", J::u(index)),
                         ("sub", J::u(index % nsubs)),
@@ -308,6 +318,7 @@ pub fn run_check(prop: &Prop, thorough: bool, verif_seed: u64, jobs: usize, scal
                     println!("VIOLATION property={} replay={}", prop.id, path);
                     std::process::exit(1);
                 }
+            }
             }
         });
     });
@@ -669,6 +680,19 @@ pub fn replay_file(props: &[Prop], path: &str) -> i32 {
         None => Tape::generate(run_seed(seed, prop.id, index)),
     };
     let cfg = RunCfg { index, sub, thorough, tracing: true, want_sample: true };
+    // a replayed hang hangs again: give it the same tick-based watchdog as a batch
+    {
+        let pid = prop.id.to_string();
+        let path = path.to_string();
+        std::thread::spawn(move || {
+            for _ in 0..1600 {
+                std::thread::sleep(std::time::Duration::from_millis(25));
+            }
+            println!("the replayed run did not finish within 1600 watchdog ticks (>= 40 s): hang reproduced");
+            println!("VIOLATION property={} replay={}", pid, path);
+            std::process::exit(1);
+        });
+    }
     let (c, out) = run_one(prop, tape, &cfg);
     println!("replay: property={} run_index={} sub={} tape_len={}", prop.id, index, sub, c.tape.rec.len());
     println!("configuration: {}", c.sample);
